@@ -97,6 +97,22 @@ func (m mapRef) String() string {
 	return "other"
 }
 
+// substEnv replaces a helper parameter by the value bound to it in the current virtual inlining.
+func substEnv(v ssa.Value) ssa.Value {
+	for i := 0; i < 4; i++ {
+		prm, ok := core.Strip(v).(*ssa.Parameter)
+		if !ok {
+			return v
+		}
+		sub, ok := core.PathEnv[prm]
+		if !ok || sub == nil {
+			return v
+		}
+		v = sub
+	}
+	return v
+}
+
 func (c *Ctx) classifyMap(gf *graphFields, m ssa.Value) mapRef {
 	if prm, ok := m.(*ssa.Parameter); ok {
 		if sub, ok := core.PathEnv[prm]; ok && sub != nil {
@@ -116,11 +132,12 @@ func (c *Ctx) classifyMap(gf *graphFields, m ssa.Value) mapRef {
 	}
 	if fr, ok := core.AsFieldLoad(m); ok && fr.Owner == "graph.Graph" {
 		r := role(fr.Field)
+		base := substEnv(fr.Base)
 		if r == "hash" {
-			return mapRef{level: "hash", field: r, base: fr.Base}
+			return mapRef{level: "hash", field: r, base: base}
 		}
 		if r != "" {
-			return mapRef{level: "outer", field: r, base: fr.Base}
+			return mapRef{level: "outer", field: r, base: base}
 		}
 	}
 	var lk *ssa.Lookup
@@ -144,7 +161,7 @@ func (c *Ctx) classifyMap(gf *graphFields, m ssa.Value) mapRef {
 	if lk != nil {
 		o := c.classifyMap(gf, lk.X)
 		if o.level == "outer" {
-			return mapRef{level: "inner", field: o.field, base: o.base, key: core.Path(lk.Index), keyV: lk.Index}
+			return mapRef{level: "inner", field: o.field, base: o.base, key: core.Path(lk.Index), keyV: substEnv(lk.Index)}
 		}
 	}
 	return mapRef{level: "other"}
@@ -161,6 +178,12 @@ type mapMut struct {
 	// when the outer key of ref ranges over a map: that map's classification (computed where the loop lives)
 	rangeSrc *mapRef
 	valPath  string
+	// virtual inlining: the instruction inside the helper and the parameter binding of that call
+	orig      ssa.Instruction
+	origBlock *ssa.BasicBlock
+	env       map[*ssa.Parameter]ssa.Value
+	// the mutation is conditional inside the helper it was inlined from
+	conditional bool
 }
 
 func (c *Ctx) mapMuts(gf *graphFields, f *ssa.Function) []mapMut {
@@ -174,47 +197,65 @@ func (c *Ctx) mapMutsDepth(gf *graphFields, f *ssa.Function, depth int) []mapMut
 			return nil
 		}
 		var res *mapRef
-		core.Instrs(f, func(in ssa.Instruction) {
-			if n, ok := in.(*ssa.Next); ok {
-				if rg, ok := n.Iter.(*ssa.Range); ok {
-					kp := "rangekey(" + core.Path(rg.X) + ")@" + fmt.Sprintf("%p", n)
-					if kp == ref.key {
-						r := c.classifyMap(gf, rg.X)
-						res = &r
+		for _, g := range c.P.GraphFuncs() {
+			core.Instrs(g, func(in ssa.Instruction) {
+				if n, ok := in.(*ssa.Next); ok {
+					if rg, ok := n.Iter.(*ssa.Range); ok {
+						kp := "rangekey(" + core.Path(rg.X) + ")@" + fmt.Sprintf("%p", n)
+						if kp == ref.key {
+							saved := core.PathEnv
+							if g != f {
+								core.PathEnv = nil // the loop lives in a caller: classify it in the caller's own terms
+							}
+							r := c.classifyMap(gf, rg.X)
+							core.PathEnv = saved
+							res = &r
+						}
 					}
 				}
-			}
-		})
+			})
+		}
 		return res
 	}
 	core.Instrs(f, func(in ssa.Instruction) {
 		switch x := in.(type) {
 		case *ssa.MapUpdate:
 			ref := c.classifyMap(gf, x.Map)
-			out = append(out, mapMut{in: in, ref: ref, key: core.Path(x.Key), keyV: x.Key, val: x.Value, block: in.Block(), rangeSrc: rangeSrcOf(ref), valPath: core.Path(x.Value)})
+			out = append(out, mapMut{in: in, ref: ref, key: core.Path(x.Key), keyV: substEnv(x.Key), val: substEnv(x.Value), block: in.Block(), rangeSrc: rangeSrcOf(ref), valPath: core.Path(x.Value)})
 		case ssa.CallInstruction:
 			if core.CalleeName(x.Common()) == "builtin.delete" {
 				a := x.Common().Args
 				ref := c.classifyMap(gf, a[0])
-				out = append(out, mapMut{in: in, del: true, ref: ref, key: core.Path(a[1]), keyV: a[1], block: in.Block(), rangeSrc: rangeSrcOf(ref)})
+				out = append(out, mapMut{in: in, del: true, ref: ref, key: core.Path(a[1]), keyV: substEnv(a[1]), block: in.Block(), rangeSrc: rangeSrcOf(ref)})
 				return
 			}
-			// virtual inlining (one level): an in-target helper that receives adjacency maps / the vertex table
+			// virtual inlining: a private helper (function or method, two levels), or any in-target
+			// non-method helper that receives adjacency maps / the vertex table (one level)
 			cal := x.Common().StaticCallee()
-			if depth > 0 || cal == nil || !c.P.InTarget(cal) || cal.Blocks == nil || cal == f {
+			if cal == nil || !c.P.InTarget(cal) || cal.Blocks == nil || cal == f {
 				return
 			}
-			if cal.Signature.Recv() != nil && core.NamedOf(cal.Signature.Recv().Type()) == "graph.Graph" {
-				return // methods of Graph are analysed in their own right
-			}
-			passes := false
-			for _, a := range x.Common().Args {
-				if r := c.classifyMap(gf, a); r.level != "other" {
-					passes = true
+			private := c.P.PrivateHelper(cal)
+			if private {
+				if depth > 1 {
+					return
 				}
-			}
-			if !passes {
-				return
+			} else {
+				if depth > 0 {
+					return
+				}
+				if cal.Signature.Recv() != nil && core.NamedOf(cal.Signature.Recv().Type()) == "graph.Graph" {
+					return // exported methods of Graph are analysed in their own right
+				}
+				passes := false
+				for _, a := range x.Common().Args {
+					if r := c.classifyMap(gf, a); r.level != "other" {
+						passes = true
+					}
+				}
+				if !passes {
+					return
+				}
 			}
 			saved := core.PathEnv
 			env := map[*ssa.Parameter]ssa.Value{}
@@ -223,12 +264,20 @@ func (c *Ctx) mapMutsDepth(gf *graphFields, f *ssa.Function, depth int) []mapMut
 			}
 			for i, prm := range cal.Params {
 				if i < len(x.Common().Args) {
-					env[prm] = x.Common().Args[i]
+					env[prm] = substEnv(x.Common().Args[i])
 				}
 			}
 			core.PathEnv = env
 			for _, m := range c.mapMutsDepth(gf, cal, depth+1) {
 				// the helper's mutations happen at the call site as far as the caller's control flow is concerned
+				if m.orig == nil {
+					m.orig = m.in
+					m.origBlock = m.block
+					m.env = env
+				}
+				if !postDominatesEntry(cal, loopHeaderOrSelf(m.block)) {
+					m.conditional = true
+				}
 				m.in = in
 				m.block = in.Block()
 				out = append(out, m)
@@ -297,6 +346,16 @@ func runMirror(c *Ctx) {
 
 	for _, f := range p.GraphFuncs() {
 		muts := c.mapMuts(gf, f)
+		// a private helper's mutations are analysed where it is called (virtual inlining): pairing and purity are
+		// decided there, in the control context of an exported operation
+		inlinedElsewhere := false
+		if p.PrivateHelper(f) && f.Name() != "init" {
+			for _, m := range muts {
+				if m.ref.level != "other" {
+					inlinedElsewhere = true
+				}
+			}
+		}
 		name := core.FuncName(f)
 		c.R.Func(name)
 		isMethod := f.Signature.Recv() != nil && core.NamedOf(f.Signature.Recv().Type()) == "graph.Graph"
@@ -308,7 +367,7 @@ func runMirror(c *Ctx) {
 
 		// ---- generic pairing of inner updates / deletes, wherever they occur
 		for i, m := range muts {
-			if m.ref.level != "inner" {
+			if m.ref.level != "inner" || inlinedElsewhere {
 				continue
 			}
 			c.R.Sites++
@@ -368,7 +427,7 @@ func runMirror(c *Ctx) {
 			}
 			want := map[string]bool{}
 			for _, m := range muts {
-				if !m.del || !postDominatesEntry(f, loopHeaderOrSelf(m.block)) {
+				if !m.del || m.conditional || !postDominatesEntry(f, loopHeaderOrSelf(m.block)) {
 					continue
 				}
 				switch {
@@ -413,16 +472,8 @@ func runMirror(c *Ctx) {
 				_, isMk1 := outerOut.val.(*ssa.MakeMap)
 				_, isMk2 := outerIn.val.(*ssa.MakeMap)
 				pairOK = isMk1 && isMk2 && outerOut.val != outerIn.val
-				// guarded by "no entry yet" for this key
-				for _, l := range core.Lits(core.Guards(outerOut.block)) {
-					if l.Kind == "ok" && !l.Pol {
-						if lk, ok := l.Of.(*ssa.Lookup); ok && core.Path(lk.Index) == outerOut.key {
-							if r := c.classifyMap(gf, lk.X); r.level == "outer" {
-								guarded = true
-							}
-						}
-					}
-				}
+				// guarded by "no entry yet" for this key (inside the helper the creation was inlined from, if any)
+				guarded = c.absentGuard(gf, outerOut)
 			}
 			c.R.Add("MIRROR-ADD", short+"|paired-creation", name, p.Pos(f.Pos()), pairOK && guarded,
 				"both adjacency maps get a fresh, distinct inner map for the key, only when the key has none yet (existing edges are kept)",
@@ -435,10 +486,15 @@ func runMirror(c *Ctx) {
 			}(); ok {
 				stored := core.Strip(hashUp.val) == f.Params[1] || core.Path(hashUp.val) == "param1"
 				if short == "AddOverwrite" {
-					c.R.Add("MIRROR-ADD", short+"|hash-replace", name, p.InstrPos(hashUp.in), stored && postDominatesEntry(f, hashUp.block),
-						"AddOverwrite always replaces the hash entry with the given vertex", fmt.Sprintf("stores-param=%v unconditional=%v", stored, postDominatesEntry(f, hashUp.block)))
+					c.R.Add("MIRROR-ADD", short+"|hash-replace", name, p.InstrPos(hashUp.in), stored && !hashUp.conditional && postDominatesEntry(f, hashUp.block),
+						"AddOverwrite always replaces the hash entry with the given vertex", fmt.Sprintf("stores-param=%v unconditional=%v", stored, !hashUp.conditional && postDominatesEntry(f, hashUp.block)))
 				} else {
-					sameBlock := outerOut != nil && hashUp.block == outerOut.block
+					sameBlock := outerOut != nil && hashUp.block == outerOut.block && hashUp.origBlock == outerOut.origBlock
+					if !sameBlock && outerOut != nil {
+						// `if g.ensure(h) { g.hash[h] = v }`: the store is guarded by the helper call that created the entries
+						// reporting that it did so
+						sameBlock = c.guardedByCreation(gf, hashUp, outerOut)
+					}
 					c.R.Add("MIRROR-ADD", short+"|hash-keep", name, p.InstrPos(hashUp.in), stored && sameBlock,
 						"Add stores the hash entry only together with the creation of the adjacency entries (an existing vertex is kept)", fmt.Sprintf("stores-param=%v with-creation=%v", stored, sameBlock))
 				}
@@ -448,7 +504,7 @@ func runMirror(c *Ctx) {
 		}
 
 		// ---- AddEdgeWeighted / RemoveEdge: unconditional, keyed by hashcode of the right parameters
-		if isMethod && (short == "AddEdgeWeighted" || short == "RemoveEdge") {
+		if isMethod && (short == "AddEdgeWeighted" || short == "RemoveEdge" || short == "AddEdge") {
 			for _, m := range muts {
 				if m.ref.level != "inner" {
 					continue
@@ -459,9 +515,13 @@ func runMirror(c *Ctx) {
 				if m.ref.field == "in" {
 					wantOuter, wantInner = 2, 1
 				}
-				ok := ok1 && ok2 && okeyIdx == wantOuter && ikeyIdx == wantInner && postDominatesEntry(f, m.block)
+				ok := ok1 && ok2 && okeyIdx == wantOuter && ikeyIdx == wantInner && !m.conditional && postDominatesEntry(f, m.block)
 				if short == "AddEdgeWeighted" && !m.del {
-					ok = ok && core.Path(m.val) == "param3"
+					ok = ok && len(f.Params) > 3 && core.Strip(m.val) == ssa.Value(f.Params[3])
+				}
+				if short == "AddEdge" && !m.del {
+					_, isConst := core.ConstInt(m.val)
+					ok = ok && isConst
 				}
 				c.R.Add("MIRROR-KEY", short+"|"+m.ref.field, name, p.InstrPos(m.in), ok,
 					fmt.Sprintf("%s writes %s[hashcode(v%d)][hashcode(v%d)] unconditionally (last weight wins)", short, m.ref.field, wantOuter, wantInner),
@@ -485,10 +545,22 @@ func runMirror(c *Ctx) {
 					if mk, ok := m.val.(*ssa.MakeMap); ok {
 						for _, o := range muts {
 							if o.ref.level == "other" && !o.del {
-								if mu, ok := o.in.(*ssa.MapUpdate); ok && mu.Map == mk {
+								oi := o.in
+								if o.orig != nil {
+									if o.in != m.in {
+										continue // a different inlined call of the helper
+									}
+									oi = o.orig
+								}
+								if mu, ok := oi.(*ssa.MapUpdate); ok && mu.Map == mk {
 									if n, ok := extractNext(mu.Key); ok {
 										if r, ok := n.Iter.(*ssa.Range); ok {
+											saved := core.PathEnv
+											if o.env != nil {
+												core.PathEnv = o.env
+											}
 											src := c.classifyMap(gf, r.X)
+											core.PathEnv = saved
 											if src.level == "inner" && src.field == m.ref.field && core.Root(src.base) == recv &&
 												src.key == m.key && sameNext(mu.Value, n, 2) {
 												srcOK = true
@@ -526,7 +598,8 @@ func runMirror(c *Ctx) {
 		// ---- Reverse
 		if isMethod && short == "Reverse" {
 			got := map[string]string{}
-			core.Instrs(f, func(in ssa.Instruction) {
+			// (also through a private constructor helper that receives the three maps)
+			p.RegionInstrs(f, func(in ssa.Instruction) {
 				st, ok := in.(*ssa.Store)
 				if !ok {
 					return
@@ -535,7 +608,16 @@ func runMirror(c *Ctx) {
 				if !ok || fr.Owner != "graph.Graph" || !p.FreshIn(st.Addr) {
 					return
 				}
-				if src, ok := core.AsFieldLoad(st.Val); ok && src.Owner == "graph.Graph" && core.Strip(src.Base) == recv {
+				srcs := p.ISources(st.Val)
+				if len(srcs) != 1 {
+					got[fr.Field] = "?"
+					return
+				}
+				if src, ok := core.AsFieldLoad(srcs[0]); ok && src.Owner == "graph.Graph" && core.Strip(src.Base) == recv {
+					if prev, dup := got[fr.Field]; dup && prev != src.Field {
+						got[fr.Field] = "?"
+						return
+					}
 					got[fr.Field] = src.Field
 				}
 			})
@@ -546,7 +628,7 @@ func runMirror(c *Ctx) {
 		}
 
 		// ---- PURITY: everything that is not a mutator performs no update on a non-fresh graph
-		if !(isMethod && (mutators[short] || short == "init" || short == "Copy" || short == "Reverse")) {
+		if !(isMethod && (mutators[short] || short == "init" || short == "Copy" || short == "Reverse")) && !inlinedElsewhere {
 			bad := ""
 			for _, m := range muts {
 				if m.ref.level == "other" {
@@ -599,6 +681,92 @@ func runMirror(c *Ctx) {
 			c.R.Add("PURITY", "init", name, p.Pos(f.Pos()), ok, "init only allocates maps that are still nil", fmt.Sprintf("ok=%v", ok))
 		}
 	}
+}
+
+// absentGuard: the creation of an adjacency entry (mutation m on an outer map) happens only when the outer map has
+// no entry for that key: a dominating `_, ok := outer[key]; !ok` in the function (or helper) the store lives in.
+func (c *Ctx) absentGuard(gf *graphFields, m *mapMut) bool {
+	saved := core.PathEnv
+	defer func() { core.PathEnv = saved }()
+	blocks := []*ssa.BasicBlock{m.block}
+	if m.origBlock != nil {
+		blocks = append(blocks, m.origBlock)
+	}
+	for i, b := range blocks {
+		core.PathEnv = saved
+		if i == 1 {
+			core.PathEnv = m.env
+		}
+		for _, l := range core.Lits(core.Guards(b)) {
+			if l.Kind == "ok" && !l.Pol {
+				if lk, ok := l.Of.(*ssa.Lookup); ok && core.Path(lk.Index) == m.key {
+					if r := c.classifyMap(gf, lk.X); r.level == "outer" {
+						return true
+					}
+				}
+			}
+		}
+	}
+	return false
+}
+
+// guardedByCreation: mutation m is guarded by a call of the private helper that performed the creation `created`,
+// on the outcome for which the helper provably found no entry for that key (so it did create the entries).
+func (c *Ctx) guardedByCreation(gf *graphFields, m, created *mapMut) bool {
+	p := c.P
+	call, _ := created.in.(*ssa.Call)
+	if call == nil || created.orig == nil {
+		return false
+	}
+	h := call.Common().StaticCallee()
+	for _, l := range core.Lits(core.Guards(m.block)) {
+		var cl *ssa.Call
+		switch l.Kind {
+		case "call":
+			cl, _ = l.Of.(*ssa.Call)
+		case "bool":
+			cl, _ = l.Of.(*ssa.Call)
+		}
+		if cl != call || !p.PrivateHelper(h) {
+			continue
+		}
+		saved := core.PathEnv
+		core.PathEnv = created.env
+		// whenever the helper returns l.Pol, the absent-literal held and the creating store was executed
+		absent := core.HelperImplies(h, l.Pol, func(hl core.Lit) bool {
+			if hl.Kind == "ok" && !hl.Pol {
+				if lk, ok := hl.Of.(*ssa.Lookup); ok && core.Path(lk.Index) == created.key {
+					return c.classifyMap(gf, lk.X).level == "outer"
+				}
+			}
+			return false
+		})
+		// … and every return producing that outcome is dominated by the creating store
+		executed := true
+		for _, bc := range core.BoolCases(h) {
+			if k, isC := core.ConstBool(bc.Val); isC && k != l.Pol {
+				continue
+			}
+			_ = bc
+		}
+		for _, r := range core.Returns(h) {
+			if len(r.Results) != 1 {
+				executed = false
+				continue
+			}
+			if k, isC := core.ConstBool(r.Results[0]); isC && k != l.Pol {
+				continue
+			}
+			if !core.InstrDominates(created.orig, r) {
+				executed = false
+			}
+		}
+		core.PathEnv = saved
+		if absent && executed && m.key == created.key {
+			return true
+		}
+	}
+	return false
 }
 
 // isFreshGraph: the graph value is the result of Copy() (or otherwise fresh) in this function.
